@@ -17,6 +17,7 @@ pub mod c14;
 pub mod c15;
 pub mod c16;
 pub mod c17;
+pub mod c18;
 pub mod c19;
 pub mod c20;
 
@@ -45,6 +46,7 @@ pub fn all() -> Vec<Property> {
         Property { id: "C15", run: c15::run, replays: c15::replays },
         Property { id: "C16", run: c16::run, replays: c16::replays },
         Property { id: "C17", run: c17::run, replays: c17::replays },
+        Property { id: "C18", run: c18::run, replays: c18::replays },
         Property { id: "C19", run: c19::run, replays: c19::replays },
         Property { id: "C20", run: c20::run, replays: c20::replays },
     ]
